@@ -42,34 +42,35 @@ var strFuncs = map[string]LGFunction{
 
 func strByte(L *LState) int {
 	str := L.CheckString(1)
-	start := L.OptInt(2, 1) - 1
-	end := L.OptInt(3, -1)
 	l := len(str)
-	if start < 0 {
-		start = l + start + 1
+	// as lstrlib.c: both positions are relative, j defaults to i
+	start := strPosRelat(L.OptInt(2, 1), l)
+	end := strPosRelat(L.OptInt(3, start), l)
+	if start < 1 {
+		start = 1
 	}
-	if end < 0 {
-		end = l + end + 1
+	if end > l {
+		end = l
 	}
-
-	if L.GetTop() == 2 {
-		if start < 0 || start >= l {
-			return 0
-		}
-		L.Push(LNumber(str[start]))
-		return 1
-	}
-
-	start = intMax(start, 0)
-	end = intMin(end, l)
-	if end < 0 || end <= start || start >= l {
+	if start > end {
 		return 0
 	}
-
-	for i := start; i < end; i++ {
-		L.Push(LNumber(str[i]))
+	for i := start; i <= end; i++ {
+		L.Push(LNumber(str[i-1]))
 	}
-	return end - start
+	return end - start + 1
+}
+
+// strPosRelat converts a relative string position: a negative one counts
+// backward from the end, positions before the beginning clamp to 0.
+func strPosRelat(pos, l int) int {
+	if pos < 0 {
+		pos += l + 1
+	}
+	if pos < 0 {
+		return 0
+	}
+	return pos
 }
 
 func strChar(L *LState) int {
